@@ -83,9 +83,10 @@ def gen_file_session(rng, rel, max_tr=40, nrandom=15, mk=True):
                 yield {"op": "ref", "a": {"impl": "zoneinfo", "scale": "utc", "t": W(t), "obs": o}}
     if mk and not is_right:
         recent = [t for t in sel if t >= 0][-12:]
-        for t in recent:
-            for o in offs[:4]:
-                L = t + o + rng.choice([-3600, -1, 0, 1, 1800, 3600, 10800, -10800])
+        exact = [(t, o, d) for t in recent[-3:] for o in offs for d in (-1, 0, 1)]          # the exact boundary seconds of the last transitions
+        for (t, o, d0) in [(t, o, None) for t in recent for o in offs[:4]] + exact:
+            if True:
+                L = t + o + (d0 if d0 is not None else rng.choice([-3600, -1, 0, 1, 1800, 3600, 10800, -10800]))
                 f = gens.fields_of_local(L, 0)
                 yield {"op": "find", "a": f}
                 # instants implied by each reference: preimage of its own forward function over the zone's offsets
